@@ -386,62 +386,75 @@ func c03Typestate(c *core.Ctx, nt *types.Named) {
 	}
 	// (a) mutations guarded
 	flagField := ""
+	// "sent" may be a disjunction of flags (headersSent || closed): the mutation sits on the edge where none is
+	// set, and setting any of them counts as marking
+	flagFields := map[string]bool{}
 	nm := 0
 	for _, f := range fam {
 		for _, m := range headerMutations(p, f, tn) {
 			nm++
 			key := fmt.Sprintf("%s.%s:header-mutation-guarded", tk, f.Name())
 			var ff string
-			g := core.GuardedBy(m, func(fc core.Fact) bool {
-				// "not sent": !boolFlag, or enumFlag == initial(0)
+			var ffs []string
+			core.GuardedBy(m, func(fc core.Fact) bool {
+				// "not sent": !boolFlag, or enumFlag == initial(0); all such facts are collected
 				if fc.Op == token.ILLEGAL && fc.Neg {
 					if base, fld, ok := core.FieldOf(fc.X); ok && core.NamedOf(base.Type()) == tn {
-						ff = fld
-						return true
+						ffs = append(ffs, fld)
 					}
 				}
 				if fc.Op == token.EQL {
 					if k, isC := core.ConstInt(fc.Y); isC && k == 0 {
 						if base, fld, ok := core.FieldOf(fc.X); ok && core.NamedOf(base.Type()) == tn {
-							ff = fld
-							return true
+							ffs = append(ffs, fld)
 						}
 					}
 				}
 				return false
 			})
+			g := len(ffs) > 0
+			if g {
+				ff = ffs[0]
+			}
 			if !g {
 				// helper (…Locked): all call sites in the family guarded
 				okSites, n := true, 0
 				for _, caller := range fam {
 					for _, call := range core.CallsIn(caller, func(_ *ssa.Call, ci core.CallInfo) bool { return ci.Static == f }) {
 						n++
-						if !core.GuardedBy(call, func(fc core.Fact) bool {
+						siteOK := false
+						core.GuardedBy(call, func(fc core.Fact) bool {
 							if fc.Op == token.ILLEGAL && fc.Neg {
-								_, fld, ok := core.FieldOf(fc.X)
-								if ok {
-									ff = fld
+								if _, fld, ok := core.FieldOf(fc.X); ok {
+									ffs = append(ffs, fld)
+									siteOK = true
 								}
-								return ok
 							}
 							if fc.Op == token.EQL {
 								k, isC := core.ConstInt(fc.Y)
 								_, fld, ok := core.FieldOf(fc.X)
 								if ok && isC && k == 0 {
-									ff = fld
-									return true
+									ffs = append(ffs, fld)
+									siteOK = true
 								}
 							}
 							return false
-						}) {
+						})
+						if !siteOK {
 							okSites = false
 						}
 					}
 				}
 				g = n > 0 && okSites
+				if g && len(ffs) > 0 {
+					ff = ffs[0]
+				}
 			}
 			if ff != "" {
 				flagField = ff
+			}
+			for _, x := range ffs {
+				flagFields[x] = true
 			}
 			c.Check(g, key, m.Pos(), "mutation of the header store only on the not-yet-sent edge of flag "+ff, "the header store can be changed after the headers were sent (no dominating 'not sent' test): setting headers late would silently succeed and be lost")
 		}
@@ -460,7 +473,7 @@ func c03Typestate(c *core.Ctx, nt *types.Named) {
 		for _, r := range core.ErrReturns(f) {
 			sentEdge := core.GuardedBy(r, func(fc core.Fact) bool {
 				_, fld, ok := core.FieldOf(fc.X)
-				if !ok || fld != flagField {
+				if !ok || !flagFields[fld] {
 					return false
 				}
 				if fc.Op == token.ILLEGAL && !fc.Neg {
@@ -481,7 +494,7 @@ func c03Typestate(c *core.Ctx, nt *types.Named) {
 	// (c) SendHeader marks the flag on every nil-return path
 	isMark := func(in ssa.Instruction) bool {
 		if st, ok := in.(*ssa.Store); ok {
-			if base, fld, ok := core.FieldOf(st.Addr); ok && fld == flagField && core.NamedOf(base.Type()) == tn {
+			if base, fld, ok := core.FieldOf(st.Addr); ok && flagFields[fld] && core.NamedOf(base.Type()) == tn {
 				if b, isB := core.ConstBool(st.Val); isB && b {
 					return true
 				}
@@ -570,7 +583,7 @@ func c03Typestate(c *core.Ctx, nt *types.Named) {
 				}
 				fc := core.CondFact(iff.Cond, si == 0)
 				_, fld, isF := core.FieldOf(fc.X)
-				if !isF || fld != flagField {
+				if !isF || !flagFields[fld] {
 					return true
 				}
 				// edges on which the flag is known to be already marked need no marking
@@ -1061,14 +1074,101 @@ func c03Reserved(c *core.Ctx) {
 			}
 		}
 	}
-	if table == nil {
+	// … or a predicate func(string) bool of the package whose negation guards the Header.Add of the encode
+	// converter (the table written as a switch)
+	var pred *ssa.Function
+	var tablePos token.Pos
+	for _, fn := range p.LibFuncs("httpgrpc") {
+		if table != nil || fn.Parent() != nil || len(fn.Params) != 3 || core.TypeStr(fn.Params[0].Type()) != metadataPkg+".MD" || core.TypeStr(fn.Params[1].Type()) != "net/http.Header" {
+			continue
+		}
+		for _, add := range core.CallsIn(fn, func(_ *ssa.Call, ci core.CallInfo) bool {
+			return ci.Is("net/http.Header.Add") || ci.Is("net/http.Header.Set")
+		}) {
+			for _, ef := range core.DominatingFacts(add) {
+				if ef.Fact.Op != token.ILLEGAL || !ef.Fact.Neg {
+					continue
+				}
+				if pc, ok := ef.Fact.X.(*ssa.Call); ok {
+					if h := pc.Call.StaticCallee(); h != nil && h.Blocks != nil && core.PkgIs(h, "httpgrpc") && len(h.Params) == 1 && core.TypeStr(h.Params[0].Type()) == "string" && h.Signature.Results().Len() == 1 && core.TypeStr(h.Signature.Results().At(0).Type()) == "bool" {
+						pred = h
+					}
+				}
+			}
+		}
+	}
+	if table == nil && pred == nil {
 		c.Missing("reserved-header table (package-level map[string]struct{}) in httpgrpc")
 		return
 	}
+	if table != nil {
+		tablePos = table.Pos()
+	} else {
+		tablePos = pred.Pos()
+	}
 	// keys from the init function
 	var keys []string
+	if pred != nil {
+		// every `return true` of the predicate sits on an edge `param == "<constant>"`; those constants are the table
+		enumerable := true
+		for _, r := range core.Returns(pred) {
+			for _, o := range core.Origins(r.Results[0]) {
+				b, isB := core.ConstBool(o)
+				if !isB {
+					enumerable = false
+					continue
+				}
+				if !b {
+					continue
+				}
+			}
+		}
+		for _, ef := range core.EdgeFactsOf(pred) {
+			f := ef.Fact
+			if f.Op == token.EQL && f.X == ssa.Value(pred.Params[0]) {
+				if k, isS := core.ConstString(f.Y); isS {
+					keys = append(keys, k)
+				}
+			}
+		}
+		// a true result not tied to one of those comparisons (a prefix test, a length test, …) cannot be enumerated
+		for _, r := range core.Returns(pred) {
+			mayTrue := false
+			for _, o := range core.Origins(r.Results[0]) {
+				if b, isB := core.ConstBool(o); !isB || b {
+					mayTrue = true
+				}
+			}
+			if mayTrue && !core.GuardedBy(r, func(f core.Fact) bool {
+				_, isS := core.ConstString(f.Y)
+				return f.Op == token.EQL && f.X == ssa.Value(pred.Params[0]) && isS
+			}) {
+				// a φ of constants: every true edge must come from such a comparison
+				okPhi := false
+				if phi, isPhi := r.Results[0].(*ssa.Phi); isPhi {
+					okPhi = true
+					for i, e := range phi.Edges {
+						if b, isB := core.ConstBool(e); isB && !b {
+							continue
+						}
+						pb := phi.Block().Preds[i]
+						if !core.LeafGuarded(core.ErrLeaf{V: e, At: pb.Instrs[len(pb.Instrs)-1], Succ: phi.Block()}, func(f core.Fact) bool {
+							_, isS := core.ConstString(f.Y)
+							return f.Op == token.EQL && f.X == ssa.Value(pred.Params[0]) && isS
+						}) {
+							okPhi = false
+						}
+					}
+				}
+				if !okPhi {
+					enumerable = false
+				}
+			}
+		}
+		c.Check(enumerable, "reserved-headers:enumerable", pred.Pos(), "the reserved-header predicate is true only for a fixed list of keys", "the reserved-header predicate can be true for keys other than a fixed list of constants: application metadata with such a key is silently dropped")
+	}
 	initFn := p.SSAPkgs[core.ModulePath+"/httpgrpc"].Func("init")
-	if initFn != nil {
+	if initFn != nil && table != nil {
 		core.Instrs(initFn, func(in ssa.Instruction) {
 			if mu, ok := in.(*ssa.MapUpdate); ok {
 				if k, isS := core.ConstString(mu.Key); isS && core.TypeStr(mu.Map.Type()) == "map[string]struct{}" {
@@ -1079,10 +1179,10 @@ func c03Reserved(c *core.Ctx) {
 	}
 	sort.Strings(keys)
 	if len(keys) == 0 {
-		c.Fail("reserved-headers:keys", table.Pos(), "could not read the keys of the reserved-header table")
+		c.Fail("reserved-headers:keys", tablePos, "could not read the keys of the reserved-header table")
 	}
 	for _, k := range keys {
-		c.Check(reservedAllowed[strings.ToLower(k)], "reserved-headers:"+k, table.Pos(), "connection/entity-level header", "header "+k+" is withheld from request metadata although it is not an HTTP/1.1 connection- or entity-level header: application metadata with this key is silently dropped")
+		c.Check(reservedAllowed[strings.ToLower(k)], "reserved-headers:"+k, tablePos, "connection/entity-level header", "header "+k+" is withheld from request metadata although it is not an HTTP/1.1 connection- or entity-level header: application metadata with this key is silently dropped")
 	}
 	// converters: the only skip in the encode converter for http.Header is the table lookup
 	for _, fn := range p.LibFuncs("httpgrpc") {
@@ -1103,11 +1203,14 @@ func c03Reserved(c *core.Ctx) {
 						if _, isNext := ex.Tuple.(*ssa.Next); isNext {
 							continue
 						}
-						if lk, isLk := ex.Tuple.(*ssa.Lookup); isLk && f.Neg {
+						if lk, isLk := ex.Tuple.(*ssa.Lookup); isLk && f.Neg && table != nil {
 							if g, ok := core.GlobalLoad(lk.X); ok && strings.HasSuffix(g, table.Name()) {
 								continue
 							}
 						}
+					}
+					if pc, isCall := f.X.(*ssa.Call); isCall && f.Neg && pred != nil && pc.Call.StaticCallee() == pred {
+						continue
 					}
 					bad = "an additional condition decides whether a metadata pair is forwarded"
 				case f.Op == token.LSS:
